@@ -230,3 +230,62 @@ def error_display(text, filename):
     shown = re.findall("@@B@@(.*?)@@E@@", sample, re.S)
     line = err.lineno
     return (line, shown, (line - 1) - max(0, line - 4))
+
+
+def pipeline_render(cfg):
+    """render ${x | local} under default_filters / <%page expression_filter> with tagging (non-commuting) user filters and
+    compare with the documented composition computed directly: returns (rendered, expected)"""
+    import types
+    import string
+    from mako.template import Template
+    from mako import filters
+    tag = lambda name: (lambda s: "<%s:%s>" % (name, s))
+    ctx = {}
+    for c in string.ascii_lowercase:
+        if c not in "nhxu":
+            ctx[c] = tag(c)
+    ctx["ff"] = tag("ff")
+    ctx["gg"] = lambda k: tag("gg%d" % k)
+    ctx["ns"] = types.SimpleNamespace(ff=lambda a, b: tag("nsff%s%s" % (a, b)))
+    ctx["aa"], ctx["bb"] = 1, 2
+    value = " <v&'\xe9> "
+    table = {"x": filters.xml_escape, "h": filters.html_escape, "u": filters.url_escape, "trim": filters.trim,
+             "entity": filters.html_entities_escape, "unicode": str, "str": str, "decode.utf8": filters.decode.utf8}
+
+    def fn(name):
+        if name in table:
+            return table[name]
+        return eval(name, {}, dict(ctx))
+
+    local, d, pg = cfg["local"], cfg["default_filters"], cfg["page_expression_filter"]
+    d = ["str"] if d is None else d
+    chain = list(local)
+    if "n" not in local:
+        if pg is not None:
+            chain = list(pg) + chain
+        if "n" not in (pg or []):
+            chain = list(d) + chain
+    expected = value
+    for name in chain:
+        if name != "n":
+            expected = fn(name)(expected)
+    expected = str(expected)
+    src = ""
+    if pg is not None:
+        src += '<%%page expression_filter="%s"/>' % ", ".join(pg).replace('"', "'")
+    src += "${x%s}" % ((" | " + ", ".join(local)) if local else "")
+    kw = {}
+    if cfg["default_filters"] is not None:
+        kw["default_filters"] = list(cfg["default_filters"])
+    # names used in default_filters / expression_filter must be visible at module level: provide them through imports=
+    import sys
+    mod = types.ModuleType("c02_filters_mod")
+    mod.__dict__.update({k: v for k, v in ctx.items() if k != "x"})
+    mod.__all__ = [k for k in ctx if k != "x"]
+    sys.modules["c02_filters_mod"] = mod
+    kw["imports"] = ["from c02_filters_mod import " + ", ".join(mod.__all__)]
+    try:
+        got = Template(src, **kw).render_unicode(x=value)
+    except Exception as e:
+        got = "raised %s: %s" % (type(e).__name__, e)
+    return (got, expected)
